@@ -40,9 +40,15 @@ SEEDS = {
  'C10-D': ('imap/command', './imap/command', 'TestMutA_'), 'C10-E': ('imap/command', './imap/command', 'TestMutB_'),
  'C10-F': ('imap/command', './imap/command', 'TestMutC_'), 'C16-C': ('internal/state', './internal/state', 'TestMutD_'),
  'C16-D': ('tests', './tests', 'TestMutE_'),
+ 'C04-E': ('tests', './tests', 'TestDemoRenameInboxOverDeletedName'), 'C04-F': ('tests', './tests', 'TestDemoCopyUIDAnnouncesDestinationValidity'),
+ 'C08-C': ('internal/db_impl/sqlite3', './internal/db_impl/sqlite3', 'TestDemoSetMailboxMessagesDeletedFlagAllBatchSizes'),
+ 'C08-D': ('internal/db_impl/sqlite3', './internal/db_impl/sqlite3', 'TestDemoMailboxFilterContainsAllBatchSizes'),
+ 'C02-C': ('tests', './tests', 'TestDemoStoreFlagsInOtherMailboxKeepsViewsConverged'),
+ 'C11-D': ('imap/command', './imap/command', 'TestDemoC11A_'), 'C11-E': ('rfcparser', './rfcparser', 'TestDemoC11B_'),
+ 'C11-F': ('imap/command', './imap/command', 'TestDemoC11C_'), 'C12-E': ('imap', './imap', 'TestDemoC12D_'), 'C12-F': ('imap', './imap', 'TestDemoC12E_'),
 }
 # demo files that belong to another package than the main demo (skipped in the confirmation run)
-SKIP = {'C01-D': ['demo_merge_expunge_wire_test.go'], 'C01-E': ['demo_silent_store_wire_test.go'], 'C13-E': ['demo_c_fetch_empty_part_test.go'], 'C17-C': ['demo_d_message_limit_test.go'], 'C01-A': ['c01_uid_range_seq_test.go'], 'C16-A': ['zz_demo_a_wire_test.go'], 'C16-B': ['zz_demo_b_wire_test.go'], 'C05-A': ['c05_mutA_readd_demo_test.go']}
+SKIP = {'C11-D': ['zz_demo_c11a_wire_test.go'], 'C01-D': ['demo_merge_expunge_wire_test.go'], 'C01-E': ['demo_silent_store_wire_test.go'], 'C13-E': ['demo_c_fetch_empty_part_test.go'], 'C17-C': ['demo_d_message_limit_test.go'], 'C01-A': ['c01_uid_range_seq_test.go'], 'C16-A': ['zz_demo_a_wire_test.go'], 'C16-B': ['zz_demo_b_wire_test.go'], 'C05-A': ['c05_mutA_readd_demo_test.go']}
 
 def sh(cmd, timeout=900, cwd=WT):
     try:
